@@ -18,7 +18,12 @@ def _resolve(name):
     modname, qual = name.split(":")
     obj = importlib.import_module(modname)
     for part in qual.split("."):
-        obj = getattr(obj, part)
+        try:
+            obj = getattr(obj, part)
+        except Exception:
+            # e.g. automat output methods refuse attribute access on the class
+            raw = obj.__dict__[part]
+            obj = getattr(raw, "method", raw)
     seen = 0
     while hasattr(obj, "__wrapped__") and seen < 5:
         obj = obj.__wrapped__
